@@ -59,8 +59,9 @@ func (sl *serialWriter) Write(al plugintypes.AuditLog) error {
 		return nil
 	}
 
-	sl.logger.Println(string(bts))
-	return nil
+	// Same bytes as Println, but the error of the underlying write is reported
+	// to the caller instead of being discarded.
+	return sl.logger.Output(2, string(bts)+"\n")
 }
 
 var _ plugintypes.AuditLogWriter = (*serialWriter)(nil)
